@@ -11,7 +11,34 @@ def obligations(tier):
     else:
         grid = [{"R": r, "P": p, "STRICT": 1, "CH": (r + p) % 2} for r in (3, 5, 6, 7) for p in (0, 1, 2)] + \
                [{"R": r, "P": p, "STRICT": 0, "CH": p} for r in (5, 7) for p in (0, 1)]
-    return [
+    steps = []
+    SYS = ["stat", "unlink", "open", "fstat", "lseek", "write", "close", "read", "time"]
+    UNITS = STR + ["fmtqfn.c", "fmt_ulong.c", "fmt_str.c", "auto_split.c", "open_write.c"]
+    for (name, mode, funcs, wit, claim) in (
+        ("job_close", 1, ["qmail-send.c:job_close"],
+         ["still_referenced", "requeued_for_retry", "unlink_failed_requeued", "other_channel_going", "handed_to_pqdone"],
+         "C03(3): channel file unlinked iff the pass hit EOF with numtodo==0 and no attempt in flight; in every other case and on every failure the message is re-inserted (pqchan at its retry time / soon, or pqdone)"),
+        ("markdone", 2, ["qmail-send.c:markdone"], ["marked", "mark_failed_before_write"],
+         "C04: markdone writes exactly the single byte 'D' at the given offset of the recipient's own channel file, only after open+seek succeeded, and closes the descriptor on every path"),
+        ("messdone", 3, ["qmail-send.c:messdone"], ["message_finished", "false_alarm", "already_gone", "failure_rescheduled"],
+         "C03(4)/C02: info/N is unlinked and foop/N requested only after local, remote, todo were seen ENOENT and injectbounce succeeded; every failure re-schedules on pqdone"),
+        ("pqadd", 5, ["qmail-send.c:pqadd"], ["stat_failed", "no_info", "todo_pending", "both_channels", "done_only"],
+         "C03(6)/C15: restart puts the message on the queue of every existing channel file with due time = its mtime, on pqdone if none, on pqfail after a stat error"),
+        ("cleanup_do", 6, ["qmail-send.c:cleanup_do"], ["stale_file_collected", "young_or_live_file_kept"],
+         "C02: foop/N is requested for a mess file only if it is older than OSSIFIED and info/N and todo/N are both ENOENT"),
+    ):
+        chans = [0, 1] if mode in (1, 2) else [0]
+        steps.append(Obl(name, "steps.c",
+            progs=[Prog("qmail-send.c", nomain=True, cut=["injectbounce"])], repo=UNITS, lib=["arena_stralloc.c"],
+            defines={"ARENA_CAP": 64, "ARENA_SLOTS": 6, "MODE": mode}, sysrename=SYS,
+            grid=[{"CH": c} for c in chans], unwind_default=44, timeout=600,
+            functions=funcs + ["qmail-send.c:fnmake_*", "fmtqfn.c:fmtqfn"],
+            cuts=["prioq_insert -> observed (C15 prioq_step proves the heap)", "injectbounce -> symbolic result (C14)",
+                  "readsubdir_next -> symbolic result", "log* -> no-ops"],
+            stubs=["stat/unlink/open/fstat/lseek/write/close: outcome of every call symbolic (tape); existence and times of the message's files symbolic"],
+            assumes=["one message with a concrete number (path names concrete), arbitrary pre-state of its files, any number of failing calls"],
+            claim=claim, expect_witnesses=wit))
+    return steps + [
         Obl("del_dochan", "del_dochan.c",
             progs=[Prog("qmail-send.c", nomain=True, cut=["markdone", "addbounce", "job_close", "del_status"])],
             repo=STR, lib=["arena_stralloc.c"], defines={"ARENA_CAP": 128, "ARENA_SLOTS": 6}, sysrename=["read"],
